@@ -70,7 +70,8 @@ def seed_choice(tape):
 def gen_workload(tape):
     family = tape.choice('family', ['inference', 'dag'])
     if family == 'inference':
-        spec = sp.gen_inference_spec(tape, disc_kinds=('disc', 'dist'), ties=False, all_rec=True)
+        spec = sp.gen_inference_spec(tape, disc_kinds=('disc', 'dist'), ties=False, all_rec=True,
+                                     latent=True)
         names = [n['name'] for n in spec['nodes']]
         stochastic = True
     else:
@@ -126,7 +127,10 @@ def task_checks(out, calls, spec_order, where):
     """single-generator and fixed-order inside every task; returns {req: (order, first state)}."""
     per = {}
     for c in calls:
-        if c['has_rs']:
+        # calls outside every batch request (a latent node run by ModelPrior's density nets in
+        # the parent: each evaluation is a computation of its own with its own context) are
+        # judged through the sampler result they feed, not as one task
+        if c['has_rs'] and c['req'] is not None:
             per.setdefault((c['req'], c['task']), []).append(c)
     info = {}
     for key, cs in per.items():
@@ -169,6 +173,9 @@ def run(tape, kind, k_hist=None):
     anc = ancestors_map(spec)
     spec_order = [n['name'] for n in spec['nodes']]
     pil = sr.pilot(elfi, spec) if family == 'inference' else None
+    if any(n.get('latent') for n in spec['nodes']) and any(
+            'z0' in n.get('args', []) for n in spec['nodes'] if n['kind'] == 'prior'):
+        out.probes['latent_node_above_prior'] += 1
     for op in ops:
         if op['kind'] == 'sample':
             meth = tape.choice('method', ['rejection', 'smc', 'rejection', 'smc', 'atsmc'])
